@@ -2,6 +2,8 @@ import FGVerif.Proofs.C14Count
 import FGVerif.Proofs.C14Cons
 import FGVerif.Proofs.C14Tables
 import FGVerif.Proofs.C14Iter
+import FGVerif.Proofs.C14EnumMultiset
+import FGVerif.Proofs.C14EnumValid
 /-!
   C14 — proxy expansion is exhaustive and conservative.
 
@@ -39,6 +41,23 @@ import FGVerif.Proofs.C14Iter
     keeps one of several parallel bonds (deliberately).  The harness reports per run how often the side
     condition fails and the driver applies the conservation check to the implementation's samples for which
     it holds (symbols: to all).
+
+  * **exact enumeration** (`Model/C14Choice.lean`, `Proofs/C14EnumA/B`, `C14Enum`, `C14EnumMultiset`) — "exactly one graph
+    per combination of choices" as a statement about a declaratively defined set of combinations, not only a cardinality:
+    `Choice` / `allChoices cfg p` (choice trees; cartesian product over the group nodes, concatenation over the graphs of a
+    group: the count formula on lists, `C14.allChoices_length : (allChoices cfg p).length = numExp cfg p` for every
+    configuration) and `expand cfg p cs` (substitute the chosen graphs with `C13.replaceNode`, first group node first;
+    the order is observable: `C14.substitution_order_matters`);
+    `C14.enumeration_exact : buildGraphs cfg fuel core = .ok res → res ~ (allChoices cfg core).map (expand cfg core)`
+    (`List.Perm`, equality of graphs; `enumeration_exact_traced`, `enumeration_mem`),
+    `C14.enumeration_total` (`generate`: `out ~ allSamples cfg aam cores`), `count_of_enumeration` / `total_of_enumeration`
+    (`count` / `total` re-derived), `C14.enumeration_multiset` (+ `_matched`, `_iter`, `expandT_trace`): the result of every
+    combination has the symbol and bond-label multisets computed from the configuration for that combination
+    (`chosenSymbols`, `chosenBonds`, minus one "#" per replaced node and the bonds lost with empty patterns).
+    The SET of combinations is the inductive predicate `ValidCombo` (`Model/C14Choice.lean`); `C14.mem_allChoices_iff`,
+    `C14.allChoices_nodup` (`Proofs/C14EnumValid.lean`): `allChoices` lists exactly the valid combinations, each once;
+    `C14.enumeration_bijective` puts the three facts together.
+    Not proved: the level-synchronous ORDER of the result list (the statements are permutations).
 
   Proof files: `C14CountA–C`, `C14Count` (counting, invariants, termination), `C14ConsA–D`, `C14Cons`
   (conservation), `C14Iter` (iter level), `C14Tables`; they build on `Proofs/C13*.lean`.
